@@ -64,6 +64,11 @@ def check(pm: ProgramModel, ctx: Ctx) -> None:
         rt = roundtrip(mb.model(root, []))
         report("C05-TYPE", f"abstract={flag}", wwhere, rt, f"abstract flag {flag}", owns=("abstract",))
     cd.abstract_positions(mb, "TYPE")
+
+    def attributed(f: AObj) -> None:
+        f._f["attributes"].append(mb.attribute("note", "x y", f))
+        f._f["attributes"].append(mb.attribute("zero", 0, f))
+    cd.positions_sweep(mb, "FIELDS", "attributes", ("attribute",), attributed, "attributes")
     # NAMES -------------------------------------------------------------------------------------------
     for cls_, name in NAME_CLASSES.items():
         rt = roundtrip(name_model(mb, name))
@@ -73,7 +78,8 @@ def check(pm: ProgramModel, ctx: Ctx) -> None:
     report("C05-ENC", "name:root-space", wwhere, rt, "root feature named 'two words'",
            owns=("name", "root", "parent", "relation", "constraint"))
     # ATTRIBUTES --------------------------------------------------------------------------------------
-    values = {"none": None, "bool": True, "false": False, "int": 7, "float": 2.5, "str": "text",
+    values = {"none": None, "bool": True, "false": False, "int": 7, "zero": 0, "zero-float": 0.0,
+              "empty-str": "", "empty-list": [], "empty-map": {}, "float": 2.5, "str": "text",
               "list": [1, "a", True], "map": {"k": 1, "nested": {"x": False}}, "unicode": "añ"}
     for vk, v in values.items():
         root = mb.feature("Root")
